@@ -157,6 +157,12 @@ def examine(case: dict, ctx) -> Outcome:
             feats.add("free_parameters")
         try:
             m = build(spec)
+            # a model whose own initial state lies outside the domain of its functions (complex / undefined
+            # values) is not a well-formed input for code generation
+            a0 = m.get_args()
+            if not all(v == v and abs(v) < 1e12 for v in a0.to_numpy().tolist()):
+                out.classes.append("skipped:undefined-at-initial-state")
+                continue
             free_vals = []
             m_exp = m
             if mc["free"]:
@@ -177,7 +183,7 @@ def examine(case: dict, ctx) -> Outcome:
                 if any(w != w or abs(w) == float("inf") for w in want):
                     out.classes.append("skipped:non-finite-reference")
                     continue
-        except (ZeroDivisionError, OverflowError, ValueError):
+        except (ZeroDivisionError, OverflowError, ValueError, TypeError):
             out.classes.append("skipped:reference-undefined")
             continue
         root = next((p for p in PRIORITY if p in feats), "plain")
